@@ -1840,9 +1840,22 @@ theorem verdict_expect (r : Reader) (mand : Bool) (c1 : Ctx) (tok : Token) (s : 
       cases translateUnit U <;> simp [outcomeOf]
     | _ => simp [expect, verdict, isNumber, isNumeric, choiceVerdict, ht, outcomeOf]
 
+theorem peekP_oob {buf : Bytes} {pos : Nat} (h : buf.length ≤ pos) (p : UInt8 → Bool) : peekP buf pos p = false := by
+  unfold peekP; rw [List.getElem?_eq_none h]
+theorem skipMany_oob {buf : Bytes} {pos : Nat} (h : buf.length ≤ pos) (p : UInt8 → Bool) : skipMany buf pos p = pos := by
+  unfold skipMany; rw [Nat.sub_eq_zero_of_le h]; rfl
+
+/-- at or beyond the end of the input no data element is found -/
+theorem parseProgramData_oob {buf : Bytes} {pos : Nat} (h : buf.length ≤ pos) :
+    (Parser.parseProgramData buf pos).2.1.type = .unknown := by
+  have hb : buf[pos + 1]? = none := List.getElem?_eq_none (by omega)
+  simp [Parser.parseProgramData, lexWhiteSpace, skipWs, skipNumbers, skipAlpha, skipChr, skipOne, skipMany_oob h, peekP_oob h,
+    lexNondecimal, lexCharacterProgramData, lexDecimal, skipMantisa, skipExponent, lexString, lexBlock, lexExpression,
+    lexSuffix, mkTok, hb]
+
 /-- a delivered token is an item of the data specification inside the parameter window -/
 theorem parameter_true_item (c : Ctx) (mand : Bool) (c1 : Ctx) (tok : Token)
-    (hw : c.pbase + c.plen ≤ c.buf.length) (hp : parameter c mand = (c1, true, tok)) :
+    (hp : parameter c mand = (c1, true, tok)) :
     c1 = pnext c ∧ ∃ q n po pl, specData ((pwin c).drop q) = .item n tok.type po pl ∧
       tok.ptr = c.pbase + (q + po) ∧ tok.len = (pl : Int) ∧ q + n ≤ (pwin c).length := by
   rw [parameter_eq] at hp
@@ -1857,7 +1870,13 @@ theorem parameter_true_item (c : Ctx) (mand : Bool) (c1 : Ctx) (tok : Token)
         simp only [Prod.mk.injEq, true_and] at hp
         obtain ⟨hc1, htok⟩ := hp
         refine ⟨hc1.symm, ?_⟩
-        have hspec := Props.C13.programData_spec (pwin c) (pstart c) (pstart_le c h1 hw)
+        have hle : pstart c ≤ (pwin c).length := by
+          rcases Nat.le_total (pstart c) (pwin c).length with h | h
+          · exact h
+          · have h0 := parseProgramData_oob (buf := pwin c) (pos := pstart c) h
+            have hpt0 : (ptok c).type = .unknown := h0
+            rw [hpt0] at hv; cases hv
+        have hspec := Props.C13.programData_spec (pwin c) (pstart c) hle
         simp only [List.drop_drop] at hspec
         have hpt : ptok c = (Parser.parseProgramData (pwin c) (pstart c)).2.1 := rfl
         generalize hsd : specData ((pwin c).drop (pstart c + wsLen ((pwin c).drop (pstart c)))) = d at hspec
@@ -1879,7 +1898,6 @@ theorem parameter_true_item (c : Ctx) (mand : Bool) (c1 : Ctx) (tok : Token)
       · simp at hp
 
 theorem reader_by_token (c : Ctx) (r : Reader) (mand : Bool) (c1 : Ctx) (tok : Token)
-    (hw : c.pbase + c.plen ≤ c.buf.length)
     (hopts : ∀ opts, r = .choice opts → ∀ o ∈ opts, ∀ b ∈ o.1, b ≠ 0 ∧ b ≠ 35)
     (hp : parameter c mand = (c1, true, tok)) :
     let (c', ok) := runReader c r mand
@@ -1888,7 +1906,7 @@ theorem reader_by_token (c : Ctx) (r : Reader) (mand : Bool) (c1 : Ctx) (tok : T
     | .ok => ok = true ∧ errorsSince c c' = []
     | .fail (some e) => ok = false ∧ errorsSince c c' = [e]
     | .fail none => False := by
-  obtain ⟨hc1, q, n, po, pl, hsd, hptr, hlen, hqn⟩ := parameter_true_item c mand c1 tok hw hp
+  obtain ⟨hc1, q, n, po, pl, hsd, hptr, hlen, hqn⟩ := parameter_true_item c mand c1 tok hp
   have hrr : runReader c r mand = finish c1 (verdict r c1 tok) := by
     rw [runReader_eq, hp]; rfl
   rw [hrr]
